@@ -39,7 +39,8 @@ CHECKS = {
         "action property RetIsCheck checked by TLC for widths/depths up to 3x3 and every generated transition executed on CountMinSketch (also HeavyHitters and "
         "StreamThreshold in min mode), all keys queried after every step.",
         note="Unsaturated, legitimate histories only (as the property states); table-driven hash functions and the real strategies on small widths so that "
-        "collisions are the norm, plus TraceScale.tla traces on widths 50..1000 with the default hash.",
+        "collisions are the norm, plus TraceScale.tla traces on widths 50..1000 with the default hash. Thorough tier, extra design-level evidence: "
+        "spec/CountMinInd.tla, an inductive invariant discharged by Apalache (unbounded history length and amounts, every hash table of a 2x3 sketch).",
         design="6 (C02)", technique=TECH),
     "C03": dict(
         category="model_checking",
@@ -83,7 +84,8 @@ CHECKS = {
         text="Counting Bloom: BloomFamily.tla with Counting=TRUE (invariants NoFalseNegative with outstanding counts, RemoveUndoesAdd); every transition "
         "executed on CountingBloomFilter incl. coinciding positions, with the undo clause evaluated on exported bytes. Counting cuckoo: Cuckoo.tla with "
         "Counting=TRUE (CountExact), every eviction/expansion path forced through the real class.",
-        note="Below saturation, legitimate removals only (as stated).", design="6 (C08)", technique=TECH),
+        note="Below saturation, legitimate removals only (as stated). Thorough tier, extra design-level evidence: spec/CountingBloomInd.tla, an inductive "
+        "invariant discharged by Apalache (unbounded history length and amounts, every hash table of a 4-cell filter with 2 probes per key).", design="6 (C08)", technique=TECH),
     "C09": dict(
         category="model_checking",
         text="spec/ExpandingBloom.tla: queue of sub-filters, growth test before each effective insertion, history oracles (calls, effective insertions, "
